@@ -975,6 +975,42 @@ def history(g, n, allow_bad=True):
 LEMPTY = [[], [], [[], [], [], [[], []]]]
 
 
+def unit_labels(f, cs=None):
+    """the same diagram / history with every node and edge label 0 (run by the harness at zero-sized label types)"""
+    z = lambda l: [0] * len(l)
+    f2 = [list(f[0]), list(f[1]), [z(f[2][0]), z(f[2][1]), f[2][2], f[2][3]]]
+    if cs is None:
+        return f2
+    out = []
+    for c in cs:
+        k = c[0]
+        if k == "new_node":
+            out.append([k, 0])
+        elif k == "new_edge":
+            out.append([k, 0, c[2], c[3]])
+        elif k == "new_operation":
+            out.append([k, 0, z(c[2]), z(c[3])])
+        elif k in ("add_edge_source", "add_edge_target"):
+            out.append([k, c[1], 0])
+        elif k in ("map_nodes", "map_edges"):
+            out.append([k, 0])
+        elif k in ("with_nodes", "with_edges"):
+            out.append([k, z(c[1])])
+        else:
+            out.append(c)
+    return f2, out
+
+
+def label_type_variants(g, f, cs, nt):
+    """the crate is generic in its labels: the same history at a label type wider than a word and at a zero-sized one"""
+    r = g.r.random()
+    if r < 0.25:
+        yield sx(["lax_history_wide", f, cs]), nt
+    elif r < 0.5:
+        f2, cs2 = unit_labels(f, cs)
+        yield sx(["lax_history_unit", f2, cs2]), nt
+
+
 def all_small_histories(maxlen):
     alphabet = [["new_node", 0], ["new_node", 1], ["new_operation", 0, [0], [1]], ["new_edge", 1, [0], [0, 1]],
                 ["unify", 0, 1], ["unify", 1, 2], ["delete_nodes", [0]], ["delete_nodes", [1, 1]],
@@ -998,6 +1034,7 @@ def C11(g, tier):
         names = [c[0] for c in cs]
         nt = any(n.startswith("delete") or n.startswith("h_delete") for n in names) and "unify" in names
         yield sx(["lax_history", start, cs]), nt
+        yield from label_type_variants(g, start, cs, nt)
     for _ in range(N(tier, 200, 2000)):
         f = g.lohg(consistent=False)
         yield sx(["lax_json", f]), len(f[2][0]) > 0 and len(f[2][1]) > 0
@@ -1029,6 +1066,17 @@ def C09(g, tier):
         cs.append(["quotient"])
         cs.append(["quotient"])
         yield sx(["lax_history", f, cs]), True
+        yield from label_type_variants(g, f, cs, True)
+        r = g.r.random()
+        if r < 0.3:
+            yield sx(["lohg_quotient_wide", f]), nq >= 2
+            yield sx(["lhg_quotient_wide", f[2]]), nq >= 2
+            yield sx(["lhg_coequalizer_wide", f[2]]), nq >= 2
+            yield sx(["lhg_is_strict_wide", f[2]]), False
+        elif r < 0.5:
+            fu = unit_labels(f)
+            yield sx(["lohg_quotient_unit", fu]), nq >= 2
+            yield sx(["lhg_quotient_unit", fu[2]]), nq >= 2
 
 
 def lcomposable(g, **kw):
@@ -1084,6 +1132,8 @@ def C10(g, tier):
         w = g.nats(n, 1)
         s, t = g.ff(t=n), g.ff(t=n)
         yield sx(["law", "vec", ["to_strict", ["lspider", s, t, w]], ["sspider", s, t, w]]), n > 0
+        yield sx(["lohg_half_spider", s, w]), n > 0
+        yield sx(["law", "vec", ["to_strict", ["lspider", s, [list(range(n)), n], w]], ["sspider", s, [list(range(n)), n], w]]), n > 0
         # in-place forms
         yield sx(["lohg_tensor", lf, lh]), nt
         yield sx(["lohg_tensor_assign", lf, lh]), nt
